@@ -80,8 +80,9 @@ func checkCompositeLiteral(
 		return nil
 	}
 
+	t = types.Unalias(t)
 	if ptr, ok := t.(*types.Pointer); ok {
-		t = ptr.Elem()
+		t = types.Unalias(ptr.Elem())
 	}
 
 	named, ok := t.(*types.Named)
@@ -140,8 +141,9 @@ func checkNewCall(
 		return nil
 	}
 
+	t = types.Unalias(t)
 	if ptr, ok := t.(*types.Pointer); ok {
-		t = ptr.Elem()
+		t = types.Unalias(ptr.Elem())
 	}
 
 	named, ok := t.(*types.Named)
@@ -212,6 +214,7 @@ func checkVarDeclaration(
 			}
 
 			// Skip pointer types - var p *Struct just creates a nil pointer, not an instance
+			t = types.Unalias(t)
 			if _, ok := t.(*types.Pointer); ok {
 				continue
 			}
